@@ -132,6 +132,17 @@ Alt == [leaf : 1..NLeaf, mark : BOOLEAN]
 \* a preference mark is only allowed on an operand of | (a lone *x does not parse)
 Disjs == {<<[leaf |-> l, mark |-> FALSE]>> : l \in 1..NLeaf} \cup UNION {[1..n -> Alt] : n \in 2..MaxAlt}
 
+\* directed three-alternative disjunctions over 1, 2, int with the first alternative marked: the harness also
+\* writes every three-alternative disjunction with nested parentheses, ((a | b) | c) and (a | (b | c)), which
+\* by D0-D2 denote the same pair as the flat form
+Directed3 == IF MaxAlt >= 3
+               THEN {<<[leaf |-> a, mark |-> TRUE], [leaf |-> b, mark |-> FALSE], [leaf |-> c, mark |-> FALSE]>> :
+                       a \in {1, 2}, b \in {1, 2}, c \in {1, 2, 4}} \cup
+                    {<<[leaf |-> a, mark |-> FALSE], [leaf |-> b, mark |-> TRUE], [leaf |-> c, mark |-> FALSE]>> :
+                       a \in {1, 2}, b \in {1, 2}, c \in {1, 2, 4}}
+               ELSE {}
+Directed2 == {<<[leaf |-> a, mark |-> TRUE], [leaf |-> b, mark |-> FALSE]>> : a \in {1, 2, 4}, b \in {1, 2, 4}}
+
 VARIABLES ds, res, pres
 vars == <<ds, res, pres>>
 
@@ -160,7 +171,8 @@ Init == ds = <<>> /\ res = None /\ pres = [i \in DOMAIN ProbeNames |-> None]
 
 Next ==
   /\ Len(ds) < MaxConj
-  /\ \E d \in (IF Sample = 0 THEN Disjs ELSE RandomSubset(Sample, Disjs)) :
+  /\ \E d \in (IF Sample = 0 THEN Disjs
+              ELSE RandomSubset(Sample, Disjs) \cup (IF Len(ds) = 0 THEN Directed3 ELSE IF Len(ds) = 1 THEN Directed2 ELSE {})) :
        LET nd == Append(ds, d) IN
        /\ ds' = nd /\ res' = OutcomeOf(AllAlts(nd))
        /\ pres' = [i \in DOMAIN ProbeNames |-> OutcomeOf(ProbeAlts(nd, i))]
